@@ -104,7 +104,7 @@ func runC13(c *runCtx) {
 			d := 1 + r.Intn(rows-2)
 			bad := append([]string{}, lines...)
 			if kind == "ndjson" {
-				bad[d] = []string{`{"a":`, `[1,2`, `{"a":1}}`, `nope`, `{"a" 1}`}[r.Intn(5)]
+				bad[d] = []string{`{"a":`, `[1,2`, `{"a":1}}`, `nope`, `{"a" 1}`, `{`, `[`, `"`, `{"a":1} {"a":2}`, `[3,4]x`, `1 apple`}[r.Intn(11)]
 			} else {
 				bad[d] = bad[d] + sep + "extra"
 			}
